@@ -163,7 +163,13 @@ def show_resp(r) -> str:
     if isinstance(r, M.SwitcherShutterStateResponse):
         return f"shutter {r.position} {r.direction.name}"
     if isinstance(r, M.SwitcherGetSchedulesResponse):
-        return "schedules " + C.hx(r.unparsed_response)
+        from aioswitcher.schedule import Days
+        D = list(Days)
+        rows = []
+        for sch in sorted(r.schedules, key=lambda x: int(x.schedule_id)):
+            days = ",".join(str(i) for i in sorted(D.index(d) for d in sch.days)) or "-"
+            rows.append(f"{sch.schedule_id},{int(sch.recurring)},{days},{sch.start_time},{sch.end_time},{sch.duration},{C.ut(sch.display)}")
+        return "schedules " + (";".join(rows) if rows else "-")
     if isinstance(r, M.SwitcherLoginResponse):
         return "login " + r.session_id
     if isinstance(r, M.SwitcherBaseResponse):
